@@ -107,6 +107,56 @@ theorem lmds_landmarks_eq_mds_of_subset (eps : K) (δ : Mat N N K) (lm : Fin nl 
     unfold triangulate triangulateRows
     rw [landmarkPos_of_injective lm hinj a]
 
+/-- **Index discipline of the landmark code** (the defect class of the seeded change C11-v3: a POSITION in the range
+    used where the ELEMENT at that position is meant).  The library is handed an iterator range `ids x = begin[x]` over
+    an arbitrary id space and a callback `cb` on ids; the `δ` of every routine is `rangeCallback cb ids`.
+    (1) The landmark distance matrix — hence the matrix handed to the eigensolver and the mean vector kept for
+    triangulation — depends on the data only through `cb (begin[lm a]) (begin[lm b])`: any two presentations (other id
+    space, other range, other callback, arbitrary values at decoy ids) that agree on those values give the same
+    `landmarkSqDist`, `lmdsB`, `lmdsMu`.
+    (2) Relabelling invariance: for any id map `σ` and any callback `cb'` on the new ids with
+    `cb' (σ i) (σ j) = cb i j` on the elements of the range, `triangulate` and the whole of Landmark MDS return on
+    `(cb', σ ∘ ids)` exactly what they return on `(cb, ids)`, for every solver answer.
+    (3) For every INJECTIVE `σ` such a `cb'` exists (so (2) speaks about every injective relabelling of every callback).
+    The variant that asks for `cb (lm a) (lm b)` fails (2): `Witness.position_variant_not_invariant`. -/
+theorem landmark_index_discipline {M M' : Nat} (eps : K) (cb : Mat M M K) (ids : Fin N → Fin M) (lm : Fin nl → Fin N) :
+    (∀ (cb' : Mat M' M' K) (ids' : Fin N → Fin M'),
+        (∀ a b, cb' (ids' (lm a)) (ids' (lm b)) = cb (ids (lm a)) (ids (lm b))) →
+        landmarkSqDist (rangeCallback cb' ids') lm = landmarkSqDist (rangeCallback cb ids) lm ∧
+        lmdsB (rangeCallback cb' ids') lm = lmdsB (rangeCallback cb ids) lm ∧
+        lmdsMu (rangeCallback cb' ids') lm = lmdsMu (rangeCallback cb ids) lm) ∧
+    (∀ (σ : Fin M → Fin M') (cb' : Mat M' M' K),
+        (∀ x y, cb' (σ (ids x)) (σ (ids y)) = cb (ids x) (ids y)) →
+        ∀ (V Y : Mat nl d K) (lam s : Vec d K) (mu : Vec nl K),
+          triangulate eps (rangeCallback cb' (σ ∘ ids)) lm mu Y lam = triangulate eps (rangeCallback cb ids) lm mu Y lam ∧
+          lmdsEmbed eps (rangeCallback cb' (σ ∘ ids)) lm V lam s = lmdsEmbed eps (rangeCallback cb ids) lm V lam s) ∧
+    (∀ σ : Fin M → Fin M', Function.Injective σ → ∃ cb' : Mat M' M' K, ∀ i j, cb' (σ i) (σ j) = cb i j) := by
+  refine ⟨?_, ?_, ?_⟩
+  · intro cb' ids' h
+    have hD : landmarkSqDist (rangeCallback cb' ids') lm = landmarkSqDist (rangeCallback cb ids) lm := by
+      funext a b
+      simp only [landmarkSqDist, sqDistMatrix, subCallback, rangeCallback, h]
+    exact ⟨hD, by simp only [lmdsB, hD], by simp only [lmdsMu, hD]⟩
+  · intro σ cb' h V Y lam s mu
+    have hδ : rangeCallback cb' (σ ∘ ids) = rangeCallback cb ids := by
+      funext x y; exact h x y
+    rw [hδ]; exact ⟨rfl, rfl⟩
+  · intro σ hσ
+    classical
+    refine ⟨fun i' j' => if h : ∃ p : Fin M × Fin M, σ p.1 = i' ∧ σ p.2 = j' then cb h.choose.1 h.choose.2 else 0, ?_⟩
+    intro i j
+    have hex : ∃ p : Fin M × Fin M, σ p.1 = σ i ∧ σ p.2 = σ j := ⟨(i, j), rfl, rfl⟩
+    obtain ⟨h1, h2⟩ := hex.choose_spec
+    simp only [dif_pos hex, hσ h1, hσ h2]
+
+/-- non-vacuity: the samples are the ids `4, 2, 5` of a six-id space, landmarks at positions `2, 0`, the ids relabelled
+    by the injective `i ↦ 5 - i`: Landmark MDS returns the same on both presentations, for every solver answer -/
+example (V : Mat 2 1 ℚ) (lam s : Vec 1 ℚ) :
+    lmdsEmbed 0 (rangeCallback Witness.cb6' (Witness.flip6 ∘ Witness.ids3)) Witness.lm2 V lam s =
+      lmdsEmbed 0 (rangeCallback Witness.cb6 Witness.ids3) Witness.lm2 V lam s :=
+  (((landmark_index_discipline (M' := 6) (0 : ℚ) Witness.cb6 Witness.ids3 Witness.lm2).2.1 Witness.flip6 Witness.cb6'
+    (fun _ _ => Witness.cb6'_relabels _ _)) V V lam s (fun _ => 0)).2
+
 /-- **Triangulation is consistent with the landmark embedding**: for every eigen-system `(V, lam)` of the landmark
     matrix (in particular whenever `B = Y Yᵀ` with `Y = V diag √lam`), the expression the second loop of `triangulate`
     evaluates — `-½ Wᵀ (δ² − μ)` with `W` the pseudo-inverse columns (`V diag(s/lam)` where `lam i` exceeds the
